@@ -596,3 +596,117 @@ M("c08-conditional-name-unchecked", "C08", [(GRP, """        if _re.fullmatch("[
             raise _ex.InvalidCapturingGroupNameException(name)
 """, "")], rule="R-BACKREF")
 M("c08-benign-slicing", "C08", [(PRE, "pattern = self.__pattern.replace('?:', '', 1)", "pattern = '(' + self.__pattern[3:]")], expect="silent")
+
+# ---------------------------------------------------------------- C01
+M("c01-escape-minus-pipe", "C01", [(PRE, "for c in {'^', '$', '(', ')', '[', ']', '{', '}', '?', '+', '*', '.', '|', '/'}:", "for c in {'^', '$', '(', ')', '[', ']', '{', '}', '?', '+', '*', '.', '/'}:")], rule="R-ESC")
+M("c01-escape-minus-paren", "C01", [(PRE, "for c in {'^', '$', '(', ')', '[', ']', '{', '}', '?', '+', '*', '.', '|', '/'}:", "for c in {'^', '$', ')', '[', ']', '{', '}', '?', '+', '*', '.', '|', '/'}:")], rule="R-ESC")
+M("c01-backslash-step-last", "C01", [(PRE, """        pattern = pattern.replace("\\\\", "\\\\\\\\")
+        for c in {'^', '$', '(', ')', '[', ']', '{', '}', '?', '+', '*', '.', '|', '/'}:
+            pattern = pattern.replace(c, f"\\\\{c}")
+        return pattern""", """        for c in {'^', '$', '(', ')', '[', ']', '{', '}', '?', '+', '*', '.', '|', '/'}:
+            pattern = pattern.replace(c, f"\\\\{c}")
+        pattern = pattern.replace("\\\\", "\\\\\\\\")
+        return pattern""")], rule="R-ESC")
+M("c01-escape-letter-d", "C01", [(PRE, "for c in {'^', '$', '(', ')', '[', ']', '{', '}', '?', '+', '*', '.', '|', '/'}:", "for c in {'^', '$', '(', ')', '[', ']', '{', '}', '?', '+', '*', '.', '|', '/', 'd'}:")], rule="R-ESC")
+M("c01-escape-order-dependent", "C01", [(PRE, "for c in {'^', '$', '(', ')', '[', ']', '{', '}', '?', '+', '*', '.', '|', '/'}:\n            pattern = pattern.replace(c, f\"\\\\{c}\")", "for c in {'^', '$', '(', ')', '[', ']', '{', '}', '?', '+', '*', '.', '|', '/'}:\n            pattern = pattern.replace(c, f\"\\\\{c}\" if c != '/' else '[/]')")], rule="R-ESC")
+M("c01-to-pregex-no-escape", "C01", [(PRE, "            return Pregex(pre, escape=True)", "            return Pregex(pre, escape=False)")])
+M("c01-escape-default-false", "C01", [(PRE, "def __init__(self, pattern: str = '', escape: bool = True) -> 'Pregex':", "def __init__(self, pattern: str = '', escape: bool = False) -> 'Pregex':")], rule="R-SANIT")
+M("c01-concat-forgets-to-pregex", "C01", [(PRE, """        pre = __class__._to_pregex(pre)
+
+        if pre._get_type() == _Type.Empty:
+            return self
+
+        pattern = self._concat_conditional_group()
+        pre = pre._concat_conditional_group()""", """        if isinstance(pre, str):
+            pre = __class__(pre, escape=False)
+
+        if pre._get_type() == _Type.Empty:
+            return self
+
+        pattern = self._concat_conditional_group()
+        pre = pre._concat_conditional_group()""")], rule="R-CTX")
+M("c01-followed-by-raw", "C01", [(PRE, """        pre = __class__._to_pregex(pre)
+        if pre._get_type() == _Type.Empty:
+            return self
+        return __class__(
+            f"{self._assert_conditional_group()}(?={pre})",""", """        if not isinstance(pre, str) and pre._get_type() == _Type.Empty:
+            return self
+        return __class__(
+            f"{self._assert_conditional_group()}(?={pre})",""")], rule="R-CTX")
+M("c01-conditional-raw-pre2", "C01", [(GRP, "            pre2 = __class__._to_pregex(pre2)._concat_conditional_group()\n", "            pre2 = str(pre2)\n")], rule="R-CTX")
+M("c01-operator-first-raw", "C01", [(OPS, "            result = __class__._to_pregex(pres[0])", "            result = pres[0] if not isinstance(pres[0], str) else _pre.Pregex(pres[0], escape=len(pres) > 1)")], rule="R-CTX")
+M("c01-affix-bypasses-either", "C01", [(ESS, "        pre = _op.Either(*prefix)\n        pre = pre +", "        pre = _pre.Pregex('|'.join(prefix), escape=False)\n        pre = pre +")], rule="R-AFFIX")
+M("c01-benign-escape-regex", "C01", [(PRE, """        pattern = pattern.replace("\\\\", "\\\\\\\\")
+        for c in {'^', '$', '(', ')', '[', ']', '{', '}', '?', '+', '*', '.', '|', '/'}:
+            pattern = pattern.replace(c, f"\\\\{c}")
+        return pattern""", """        return _re.sub(r"([\\\\^$()\\[\\]{}?+*.|/])", r"\\\\\\1", pattern)""")], expect="silent")
+M("c01-benign-escape-more", "C01", [(PRE, "for c in {'^', '$', '(', ')', '[', ']', '{', '}', '?', '+', '*', '.', '|', '/'}:", "for c in {'^', '$', '(', ')', '[', ']', '{', '}', '?', '+', '*', '.', '|', '/', '#', '&', '~'}:")], expect="silent")
+
+# ---------------------------------------------------------------- C03
+M("c03-builtin-exception", "C03", [(PRE, """        if not isinstance(pattern, str):
+            message = "Provided argument \\"pattern\\" is not a string."
+            raise _ex.InvalidArgumentTypeException(message)""", """        if not isinstance(pattern, str):
+            message = "Provided argument \\"pattern\\" is not a string."
+            raise TypeError(message)""")], rule="R-RAISE")
+M("c03-try-except-swallow", "C03", [(PRE, """        pre = __class__._to_pregex(pre)._concat_conditional_group()
+        pattern = f"{pre}{self._concat_conditional_group()}{pre}\"""", """        try:
+            pre = __class__._to_pregex(pre)._concat_conditional_group()
+        except Exception:
+            pre = ''
+        pattern = f"{pre}{self._concat_conditional_group()}{pre}\"""")], rule="R-RAISE")
+M("c03-progress-test-removed", "C03", [(PRE, "return temp if temp == repl or temp == pattern else remove_groups(temp, repl)", "return temp if temp == repl else remove_groups(temp, repl)")], rule="R-TERM")
+M("c03-mutual-recursion", "C03", [(PRE, """        if self.__type == _Type.Empty:
+            return self
+        elif self.__type == _Type.Group:
+            if self.__pattern.startswith('(?P<'):""", """        if self.__type == _Type.Empty:
+            return self
+        elif self.__type == _Type.Other:
+            return self.capture().group(is_case_insensitive)
+        elif self.__type == _Type.Group:
+            if self.__pattern.startswith('(?P<'):"""), (PRE, """        if self.__type == _Type.Empty:
+            return self
+        elif self.__type == _Type.Group:
+            if self.__pattern.startswith('(?:'):""", """        if self.__type == _Type.Empty:
+            return self
+        elif self.__type == _Type.Token:
+            return self.group().capture(name)
+        elif self.__type == _Type.Group:
+            if self.__pattern.startswith('(?:'):""")], rule="R-TERM")
+M("c03-to-pregex-no-type-check", "C03", [(PRE, """        elif issubclass(pre.__class__, __class__):
+            return pre
+        else:
+            message = "Parameter \\"pre\\" must either be a string or an instance of \\"Pregex\\"."
+            raise _ex.InvalidArgumentTypeException(message)""", """        else:
+            return pre""")], rule="R-TOTAL")
+M("c03-exactly-no-type-check", "C03", [(PRE, """        if not isinstance(n, int) or isinstance(n, bool):
+            message = "Provided argument \\"n\\" is not an integer."
+            raise _ex.InvalidArgumentTypeException(message)
+        if n == 0:
+            return Pregex()""", """        if n == 0:
+            return Pregex()""")], rule="R-TOTAL")
+M("c03-backref-no-else", "C03", [(GRP, """        else:
+            message = "Parameter \\"ref\\" is neither an integer nor a string."
+            raise _ex.InvalidArgumentTypeException(message)
+        super().__init__(str(ref), transform)""", """        super().__init__(str(ref), transform)""")], rule="R-TOTAL")
+M("c03-lookaround-arity-check-removed", "C03", [(ASR, """        if len(pres) < 2:
+            message = "At least one assertion pattern is required."
+            raise _ex.NotEnoughArgumentsException(message)
+""", "")], rule="R-GUARD")
+M("c03-numeral-base-type-check", "C03", [(ESS, """        if not isinstance(base, int):
+            message = "Provided argument \\"base\\" must be an integer."
+            raise _ex.InvalidArgumentTypeException(message)
+""", "")], rule="R-TOTAL")
+M("c03-benign-word-max-type-downstream", "C03", [(ESS, """            if max_chars is not None:
+                message = "Provided argument \\"max_chars\\" must be either an integer nor \\"None\\"."
+                raise _ex.InvalidArgumentTypeException(message)""", """            pass""")], expect="silent")  # at_least_at_most raises the same exception
+M("c03-date-wraps-only-str", "C03", [(ESS, "        if not isinstance(formats, (list, tuple)):\n            formats = [formats]", "        if isinstance(formats, str):\n            formats = [formats]")], rule="R-TOTAL")
+M("c03-repr-no-unescape", "C03", [(PRE, 'return _re.sub(r"\\\\\\\\", r"\\\\", repr(self.__pattern)[1:-1])', 'return repr(self.__pattern)[1:-1]')], rule="R-EXPORT")
+M("c03-repr-str", "C03", [(PRE, 'return _re.sub(r"\\\\\\\\", r"\\\\", repr(self.__pattern)[1:-1])', 'return self.__pattern')], rule="R-EXPORT")
+M("c03-benign-guard-helper", "C03", [(PRE, """        if not isinstance(n, int) or isinstance(n, bool):
+            message = "Provided argument \\"n\\" is not an integer."
+            raise _ex.InvalidArgumentTypeException(message)
+        if n == 0:
+            return Pregex()""", """        if type(n) is not int:
+            raise _ex.InvalidArgumentTypeException("Provided argument \\"n\\" is not an integer.")
+        if n == 0:
+            return Pregex()""")], expect="silent")
